@@ -389,6 +389,9 @@ class Bench:
     def exact_total_ok(self, T, unit):
         W = self.world
         mult = {'L': W.units.vol_mult, 'mol': W.units.mol_mult, 'g': F(1), 'U': F(1)}[unit]
+        # representable at the library's precision in the unit the request is rounded in (no rounding tie at the last digit)
+        if (T / mult / (100 * W.units.q)).denominator != 1:
+            return False
         return T / mult <= 20000
 
     def ev_new_plate(self, ev):
